@@ -118,6 +118,7 @@ class Result:
         self.choices = oc.get("choices") or []
         self.trace = oc.get("trace") or []
         self.blocked = oc.get("blocked") or []
+        self.map_races = oc.get("map_races") or []
         self.deliveries = raw.get("deliveries") or []
         self.exit_normal = raw.get("exit_normal", False)
         self.note = raw.get("note", "")
